@@ -146,6 +146,9 @@ func unionMeta(c *Case) map[[2]string]string {
 		if i := strings.Index(a, "="); i >= 0 {
 			path = a[i+1:]
 		}
+		if path == "-" {
+			path = c.Stdin
+		}
 		for _, line := range strings.Split(content[path], "\n") {
 			fs := strings.Fields(line)
 			if len(fs) < 2 || fs[0] != "Unit" {
